@@ -800,10 +800,12 @@ def _make_body(t):
                 with self.subTest(i=i, **(sub[1] if len(sub) > 1 and sub[1] else {})):
                     do_actions((sub[2] if len(sub) > 2 else None), 'T:%s:sub%d' % (t['n'], i))
                     if sub[0] == 'fail':
-                        emit('T', ph='subfail', id=self.id(), s=_safe_str(self._subtest), kind='fail')
+                        emit('T', ph='subfail', id=self.id(), s=_safe_str(self._subtest), kind='fail',
+                             sid=self._subtest.id())
                         self.fail(t.get('msg', 'subtest failed'))
                     elif sub[0] == 'error':
-                        emit('T', ph='subfail', id=self.id(), s=_safe_str(self._subtest), kind='error')
+                        emit('T', ph='subfail', id=self.id(), s=_safe_str(self._subtest), kind='error',
+                             sid=self._subtest.id())
                         raise make_exc(t.get('exc', 'ValueError'), t.get('msg'))
                     elif sub[0] == 'skip':
                         self.skipTest('sub skipped')
@@ -841,6 +843,11 @@ def build_case(node, modname, layers):
         def shortDescription(self):
             return _test_spec(self).get('sdesc')
         ns['shortDescription'] = shortDescription
+    if any('count' in t for t in node['tests']):
+        # a test object standing for several checks (or none): legal, the runner adds countTestCases() to its totals
+        def countTestCases(self):
+            return _test_spec(self).get('count', 1)
+        ns['countTestCases'] = countTestCases
     cls = type(node['name'], (unittest.TestCase,), ns)
     cls.__qualname__ = node['name']
     if node.get('skip_class'):
